@@ -514,6 +514,69 @@ def r8_positive_proposals(repo: Repo, rep):
         rep.check(R, not bad, fi.site(p.ret_node), fi.fq, "each count is at least 1 for every n and every ratio of boundary lengths", f"can be 0: {bad}", f"count may be 0: {bad}")
 
 
+def r11_polygon_rejection(repo: Repo, rep):
+    R = rep.rule("R-C01-11", "ShapelyPolygon samples triangle by triangle: points of a triangle that is not within the polygon are kept only where the polygon's OWN membership test "
+                 "(self._contains on those points: holes included) accepts them, and the triangle used for topping up is one that lies within the polygon", floor=2,
+                 why="a crossing test against the exterior ring keeps points inside a hole; topping up in the biggest triangle of a non-convex polygon - which may lie completely outside - never accepts a point")
+    ci = repo.cls("problem.domains.domain2D.shapely_polygon.ShapelyPolygon")
+    tri = ci.methods.get("_sample_in_triangulation")
+    su = ci.methods.get("sample_random_uniform")
+    if tri is None or su is None:
+        raise AnalysisError("ShapelyPolygon._sample_in_triangulation / sample_random_uniform vanished")
+    rep.saw(tri), rep.saw(su)
+    # (a) the rejection step
+    n_rej = 0
+    for node in ast.walk(tri.node):
+        if not (isinstance(node, ast.If) and "within" in dump(node.test)):
+            continue
+        neg = isinstance(node.test, ast.UnaryOp) and isinstance(node.test.op, ast.Not)
+        body = node.body if neg else node.orelse
+        if not body:
+            continue
+        n_rej += 1
+        accepted = set()  # names derived from self._contains(..)
+        ok = False
+        for st in body:
+            for a in ast.walk(st):
+                if isinstance(a, ast.Assign):
+                    from_own = any(isinstance(c, ast.Call) and dump(c.func) == "self._contains" for c in ast.walk(a.value))
+                    from_acc = any(isinstance(x, ast.Name) and x.id in accepted for x in ast.walk(a.value))
+                    foreign = [dump(c.func) for c in ast.walk(a.value) if isinstance(c, ast.Call) and ("contains" in dump(c.func) or "within" in dump(c.func)) and dump(c.func) != "self._contains"]
+                    tg = {x.id for t in a.targets for x in ast.walk(t) if isinstance(x, ast.Name)}
+                    if (from_own or from_acc) and not foreign:
+                        if isinstance(a.value, ast.Subscript) and any(isinstance(x, ast.Name) and x.id in accepted for x in ast.walk(a.value.slice)) or \
+                                (isinstance(a.value, ast.Subscript) and any(isinstance(c, ast.Call) and dump(c.func) == "self._contains" for c in ast.walk(a.value.slice))):
+                            ok = True  # points selected by the accepted rows
+                        accepted |= tg
+        rep.check(R, ok, tri.site(node), tri.fq, "points of a triangle that leaves the polygon are selected by self._contains(points)", "no selection by the polygon's own membership test", "rejection without self._contains")
+    if n_rej == 0:
+        rep.violation(R, tri.site(), tri.fq, "triangles that are not within the polygon get their points filtered", "no `within` test", "no rejection step")
+    # (b) the top-up triangle
+    tops = [c for fn in (su,) + tuple(m for m in ci.methods.values() if m is not su) for c in ast.walk(fn.node)
+            if isinstance(c, ast.Call) and dump(c.func) == "self._check_enough_points_sampled"]
+    tname = None
+    for c in ast.walk(su.node):
+        if isinstance(c, ast.Call) and dump(c.func) == "self._check_enough_points_sampled" and len(c.args) >= 3 and isinstance(c.args[2], ast.Name):
+            tname = c.args[2].id
+    if tname is None:
+        rep.undecided(R, su.site(), su.fq, "the triangle handed to the top-up step", "call not recognised")
+        return
+    from ..util import parent_map
+    pm = parent_map(su.node)
+    for a in ast.walk(su.node):
+        if not (isinstance(a, ast.Assign) and any(isinstance(x, ast.Name) and x.id == tname for t in a.targets for x in ast.walk(t))):
+            continue
+        if all(isinstance(v, ast.Constant) for v in (a.value.elts if isinstance(a.value, ast.Tuple) else [a.value])):
+            continue  # initialisation
+        guards, q = [], pm.get(id(a))
+        while q is not None and q is not su.node:
+            if isinstance(q, ast.If):
+                guards.append(dump(q.test))
+            q = pm.get(id(q))
+        rep.check(R, any("within(self.polygon)" in g and "not " not in g.split("within")[0][-5:] for g in guards), su.site(a), su.fq,
+                  f"`{tname}` (the top-up triangle) is only ever a triangle that lies within the polygon", f"assigned under {guards or 'no guard'}", f"{tname} assigned under {guards}")
+
+
 def r10_perimeter_walk(repo: Repo, rep):
     R = rep.rule("R-C01-10", "the perimeter walk of a polygon outline writes EVERY requested arc-length position onto the side it falls on - evaluated on rings of three and four sides "
                  "(five coordinates, the last repeats the first) with one position in the middle of each side, the closing side included", floor=4,
@@ -652,6 +715,7 @@ def _eval_poly_in_n(e: ast.AST, k: int):
 
 
 def run(repo: Repo, rep):
+    r11_polygon_rejection(repo, rep)
     from .c11 import r5_r6_mixtures  # row k of a union sample belongs to parameter row k // n: operands are mixed row-wise (where), never re-ordered by selection and concatenation
     r5_r6_mixtures(repo, rep)
     r10_perimeter_walk(repo, rep)
